@@ -256,10 +256,10 @@ class Parser:
             left_exp = primitives.Wildcard()
         elif pstate.is_next(_plus):
             pstate.advance()
-            left_exp = self.parse_expression(pstate, _PREC_UNARY)
+            left_exp = self.parse_expression(pstate, _PREC_TIMES)
         elif pstate.is_next(_minus):
             pstate.advance()
-            left_exp = -self.parse_expression(pstate, _PREC_UNARY)  # pylint:disable=invalid-unary-operand-type
+            left_exp = -self.parse_expression(pstate, _PREC_TIMES)  # pylint:disable=invalid-unary-operand-type
         elif pstate.is_next(_not):
             pstate.advance()
             from pymbolic.primitives import LogicalNot
@@ -269,7 +269,7 @@ class Parser:
             pstate.advance()
             from pymbolic.primitives import BitwiseNot
             left_exp = BitwiseNot(
-                    self.parse_expression(pstate, _PREC_UNARY))
+                    self.parse_expression(pstate, _PREC_TIMES))
         elif pstate.is_next(_openpar):
             pstate.advance()
 
